@@ -54,6 +54,8 @@ TECHNIQUE = "Lean 4 proof (floor/ceil/trunc arithmetic over ℚ, list membership
 K_OVERFLOW = "C14/result-buffer-length-int-overflow"
 K_F32GRID = "C14/float32-cell-count-rounding/atom-outside-grid"
 K_TRICLINIC = "C14/periodic/skewed-triclinic-box/minimum-image-outside-27-replicas"
+K_READONLY = "C14/spelling/read-only-array-rejected"
+K_SEL_STRIDED = "C14/spelling/non-contiguous-selection-mask-rejected"
 
 
 # ---------------------------------------------------------------- translator (Gen)
@@ -187,6 +189,80 @@ def _parse_ops(ops):
 _LAST = {}
 
 
+# ---------------------------------------------------------------- the same value in another spelling
+_INT_TYPES = ("int8", "int16", "int32", "int64", "uint8", "uint16", "uint32", "uint64")
+
+
+def _spell_scalar(np, v, rnd, allow_bool=False):
+    """A Python/NumPy scalar of a randomly chosen type that represents the float value v exactly."""
+    if rnd is None:
+        return v
+    import warnings
+    cands = [float(v), np.float64(v)]
+    if float(np.float32(v)) == float(v):
+        cands.append(np.float32(v))
+    with warnings.catch_warnings():
+        warnings.simplefilter("ignore")
+        h = np.float16(v)
+    if np.isfinite(h) and float(h) == float(v):
+        cands.append(h)
+    if float(v) == int(v):
+        iv = int(v)
+        cands.append(iv)
+        for t in _INT_TYPES:
+            info = np.iinfo(t)
+            if info.min <= iv <= info.max:
+                cands.append(getattr(np, t)(iv))
+        if allow_bool and iv in (0, 1):
+            cands += [bool(iv), np.bool_(iv)]
+    return rnd.choice(cands)
+
+
+def _spell_array(np, a, rnd, ints=False, allow_list=False):
+    """The same array values as float64 / Fortran order / strided view / byte-swapped / read-only float64 /
+    (u)int of several widths when integral / list.  (read-only *float32* and read-only int32 are rejected by the
+    unchanged code: known finding, kept in its own witness case.)"""
+    if rnd is None:
+        return a
+    kinds = ["same", "same", "wide", "F", "strided", "swap", "ro-wide"]
+    vals = np.asarray(a, dtype=np.float64)
+    if vals.size and np.all(vals == np.round(vals)) and np.all(np.abs(vals) < 2 ** 31):
+        kinds += ["i64", "i16" if np.all(np.abs(vals) < 2 ** 15) else "i64", "u8" if np.all((vals >= 0) & (vals < 256)) else "i64"]
+    if not ints and vals.size:
+        with np.errstate(all="ignore"):
+            if np.all(vals.astype(np.float16).astype(np.float64) == vals):
+                kinds.append("f16")
+    if allow_list:
+        kinds.append("list")
+    k = rnd.choice(kinds)
+    if k == "same":
+        return a
+    if k == "wide":
+        return a.astype(np.int64 if ints else np.float64)
+    if k == "F":
+        return np.asfortranarray(a)
+    if k == "strided":
+        big = np.zeros(a.shape[:-1] + (a.shape[-1] * 2,), dtype=a.dtype)
+        big[..., ::2] = a
+        return big[..., ::2]
+    if k == "swap":
+        return a.astype(a.dtype.newbyteorder())
+    if k == "ro-wide":
+        w = a.astype(np.int64 if ints else np.float64)
+        w.flags.writeable = False
+        return w
+    if k == "f16":
+        return a.astype(np.float16)
+    if k == "list":
+        return a.tolist()
+    return a.astype({"i64": np.int64, "i16": np.int16, "u8": np.uint8}[k])
+
+
+def _sp(case):
+    import random
+    return random.Random(case["sp"]) if case.get("sp") is not None else None
+
+
 def _box_matrix(np, b, sc):
     if b is None:
         return None
@@ -195,12 +271,64 @@ def _box_matrix(np, b, sc):
     return np.diag(np.array(b, dtype=np.float64) * sc).astype(np.float32)
 
 
-def _build(np, spec, exact):
+def _snap_args(np, arr, box, sel):
+    out = []
+    for name, a in (("coordinates", arr), ("box", box), ("selection mask", sel)):
+        if isinstance(a, np.ndarray):
+            out.append((name, a, a.tobytes(), a.dtype, a.shape))
+        elif a is not None and hasattr(a, "coord"):
+            out.append(("AtomArray.coord", a.coord, a.coord.tobytes(), a.coord.dtype, a.coord.shape))
+            if a.box is not None:
+                out.append(("AtomArray.box", a.box, a.box.tobytes(), a.box.dtype, a.box.shape))
+    return out
+
+
+def _snap_changed(snaps):
+    return [name for name, a, b, dt, sh in snaps if a.tobytes() != b or a.dtype != dt or a.shape != sh]
+
+
+def _construct(np, rnd, arr, cs, periodic, box, sel):
+    """CellList(...) with positional or keyword arguments, defaults omitted or spelled out."""
+    from biotite.structure import CellList
+    _LAST["ctor_snap"] = []
+    if rnd is None:
+        _LAST["ctor_snap"] = _snap_args(np, arr, box, sel)
+        return CellList(arr, cs, periodic=periodic, box=box, selection=sel)
+    cs = _spell_scalar(np, cs, rnd)
+    if box is not None and isinstance(box, np.ndarray):
+        b = rnd.choice(["same", "f64", "F-ro", "int"])
+        if b == "f64":
+            box = box.astype(np.float64)
+        elif b == "F-ro":
+            box = np.asfortranarray(box)
+            box.flags.writeable = False
+        elif b == "int" and np.all(box == np.round(box)):
+            box = box.astype(np.int64)
+    _LAST["ctor_snap"] = _snap_args(np, arr, box, sel)
+    style = rnd.choice(["pos", "kw", "mixed", "minimal"])
+    if style == "pos":
+        return CellList(arr, cs, periodic, box, sel)
+    if style == "kw":
+        return CellList(atom_array=arr, cell_size=cs, periodic=periodic, box=box, selection=sel)
+    if style == "minimal":
+        kw = {}
+        if periodic:
+            kw["periodic"] = True if rnd.random() < 0.5 else np.bool_(True)
+        if box is not None:
+            kw["box"] = box
+        if sel is not None:
+            kw["selection"] = sel
+        return CellList(arr, cs, **kw)
+    return CellList(arr, cell_size=cs, periodic=periodic, box=box, selection=sel)
+
+
+def _build(np, spec, exact, rnd=None):
     """Construct the real CellList from a spec. exact: ints/2^S ; else floats.
 
     spec["box"] is the box that must be in effect by the documentation; spec["src"] (exact) or
-    spec["own_box"/"box_pass"] (float) say how the boxes are handed over (ndarray vs AtomArray carrying its own box)."""
-    from biotite.structure import AtomArray, CellList
+    spec["own_box"/"box_pass"] (float) say how the boxes are handed over (ndarray vs AtomArray carrying its own box).
+    rnd: a random.Random choosing another spelling of the same argument values (None: canonical float32 arrays)."""
+    from biotite.structure import AtomArray
     sel = None if spec["sel"] is None else np.array(spec["sel"], dtype=bool)
     _LAST["sel"] = sel
     if exact:
@@ -210,27 +338,27 @@ def _build(np, spec, exact):
         box = _box_matrix(np, spec["box"], sc)
         src = spec.get("src")
         if src is None:
-            return CellList(coords, cs, periodic=box is not None, box=box, selection=sel), coords, box
+            arr = _spell_array(np, coords, rnd, allow_list=len(coords) > 0) if len(coords) else coords
+            return _construct(np, rnd, arr, cs, box is not None, box, sel), coords, box
         atoms = AtomArray(len(coords))
         atoms.coord = coords
         own = _box_matrix(np, src["own"], sc)
         if own is not None:
             atoms.box = own
-        return (CellList(atoms, cs, periodic=src["periodic"], box=_box_matrix(np, src["expl"], sc), selection=sel),
-                coords, box)
+        return (_construct(np, rnd, atoms, cs, src["periodic"], _box_matrix(np, src["expl"], sc), sel), coords, box)
     coords = np.array(spec["coords"], dtype=np.float64).reshape(-1, 3).astype(np.float32)
     cs = spec["cs"]
     box = None if spec["box"] is None else np.array(spec["box"], dtype=np.float32)
     if not spec.get("as_atoms"):
-        return CellList(coords, cs, periodic=box is not None, box=box, selection=sel), coords, box
+        return _construct(np, rnd, _spell_array(np, coords, rnd, allow_list=True), cs, box is not None, box, sel), coords, box
     atoms = AtomArray(len(coords))
     atoms.coord = coords
     if spec.get("box_pass") == "own":          # only the AtomArray carries the box
         atoms.box = box
-        return CellList(atoms, cs, periodic=box is not None, selection=sel), coords, box
+        return _construct(np, rnd, atoms, cs, box is not None, None, sel), coords, box
     if spec.get("own_box") is not None:        # the AtomArray carries a *different* box; the explicit one must win
         atoms.box = np.array(spec["own_box"], dtype=np.float32)
-    return CellList(atoms, cs, periodic=box is not None, box=box, selection=sel), coords, box
+    return _construct(np, rnd, atoms, cs, box is not None, box, sel), coords, box
 
 
 def _rows_from_idx(np, arr, single, n, periodic):
@@ -290,47 +418,89 @@ def _show(rows, single):
     return "ok m " + ";".join(_ints(r) for r in rows)
 
 
-def _query(np, cl, q, n, periodic, exact, S=0, wide=False, issues=None):
+def _query(np, cl, q, n, periodic, exact, S=0, wide=False, issues=None, rnd=None):
     """Run one query op on the real cell list -> rows (list of sorted lists) or 'BAD…'; raises on error.
 
     wide: pass float64 coordinates / float64 (int64) radii instead of float32 (int32).
-    issues: if a list, the call is repeated with the *same* argument arrays; every array argument must be
-    bit-identical afterwards and the second answer must equal the first (appends (kind, message))."""
+    rnd: random.Random choosing another spelling of the same argument values and the call style
+         (positional / keyword / defaults omitted).
+    issues: if a list, every array argument must be bit-identical after the call — also when the call raises —
+    and the call is repeated with the *same* argument objects: the second answer must equal the first."""
     sc = 2.0 ** (-S) if exact else 1.0
     if q["op"] == "adj":
-        m = cl.create_adjacency_matrix(q["thr"] * sc)
+        thr = _spell_scalar(np, q["thr"] * sc, rnd)
+        if rnd is not None and rnd.random() < 0.5:
+            m = cl.create_adjacency_matrix(threshold_distance=thr)
+        else:
+            m = cl.create_adjacency_matrix(thr)
         if m.shape != (n, n):
             return "BAD:shape"
         if issues is not None:
-            m2 = cl.create_adjacency_matrix(q["thr"] * sc)
+            m2 = cl.create_adjacency_matrix(thr)
             if not np.array_equal(m, m2):
-                issues.append(("repeated-query-differs", f"create_adjacency_matrix({q['thr'] * sc}) called twice gives different matrices"))
+                issues.append(("repeated-query-differs", f"create_adjacency_matrix({thr!r}) called twice gives different matrices"))
         return _rows_from_mask(np, m, False, n)
     pts = np.array(q["q"], dtype=np.float64).reshape(-1, 3) * sc
     pts = pts.astype(np.float64 if wide else np.float32)
     single = q["shape"] == "s"
     if single:
         pts = pts[0]
+    if pts.size:
+        pts = _spell_array(np, pts, rnd)
     as_mask = q["mode"] == "mask"
     if q["op"] == "atoms":
-        rad = q["rad"] * sc if q["rad_kind"] == "s" else np.array(q["rad"], dtype=np.float64) * sc
-        if q["rad_kind"] == "m":
-            rad = rad.astype(np.float64 if wide else np.float32)
-        fn = cl.get_atoms
+        if q["rad_kind"] == "s":
+            rad = _spell_scalar(np, q["rad"] * sc, rnd)
+        else:
+            rad = (np.array(q["rad"], dtype=np.float64) * sc).astype(np.float64 if wide else np.float32)
+            if rad.size:
+                rad = _spell_array(np, rad, rnd)
+        fn, rname = cl.get_atoms, "radius"
     else:
-        rad = int(q["rad"]) if q["rad_kind"] == "s" else np.array(q["rad"], dtype=np.int64 if wide else np.int32)
-        fn = cl.get_atoms_in_cells
+        if q["rad_kind"] == "s":
+            rad = int(q["rad"]) if rnd is None else _spell_scalar(np, int(q["rad"]), rnd, allow_bool=True)
+        else:
+            rad = np.array(q["rad"], dtype=np.int64 if wide else np.int32)
+            if rad.size:
+                rad = _spell_array(np, rad, rnd, ints=True)
+        fn, rname = cl.get_atoms_in_cells, "cell_radius"
+    style = "canon" if rnd is None else rnd.choice(["pos", "kw", "default", "canon"])
+    mflag = as_mask if (rnd is None or rnd.random() < 0.6) else np.bool_(as_mask)
+
+    def call():
+        if style == "pos":
+            return fn(pts, rad, mflag)
+        if style == "kw":
+            return fn(coord=pts, as_mask=mflag, **{rname: rad})
+        if style == "default":        # leave out every argument that has its default value
+            kw = {}
+            if as_mask:
+                kw["as_mask"] = mflag
+            if rname == "cell_radius" and not isinstance(rad, np.ndarray) and rad == 1:
+                return fn(pts, **kw)
+            return fn(pts, rad, **kw)
+        return fn(pts, rad, as_mask=mflag)
     snaps = [(name, a, a.tobytes()) for name, a in (("query coordinates", pts), ("radius array", rad)) if isinstance(a, np.ndarray)]
-    res = fn(pts, rad, as_mask=as_mask)
-    if issues is not None:
+
+    def modified():
+        out = []
         for name, a, b in snaps:
             if a.tobytes() != b:
-                issues.append(("caller-array-modified", f"{q['op']} overwrote the caller's {name} ({a.dtype}): now {a.tolist()}"[:300]))
+                out.append(("caller-array-modified", f"{q['op']} overwrote the caller's {name} ({a.dtype}): now {a.tolist()}"[:300]))
+        return out
+    try:
+        res = call()
+    except Exception:
+        if issues is not None:
+            issues += modified()
+        raise
+    if issues is not None:
+        issues += modified()
         if issues:      # do not query again with corrupted arguments (a squared radius can ask for gigabytes)
             return _rows_from_mask(np, res, single, n) if as_mask else _rows_from_idx(np, res, single, n, periodic)
-        res2 = fn(pts, rad, as_mask=as_mask)
+        res2 = call()
         if not np.array_equal(np.asarray(res), np.asarray(res2)):
-            issues.append(("repeated-query-differs", f"{q['op']} with the same argument arrays ({pts.dtype} coordinates, "
+            issues.append(("repeated-query-differs", f"{q['op']} with the same argument objects ({getattr(pts, 'dtype', 'list')} coordinates, "
                            f"{getattr(rad, 'dtype', type(rad).__name__)} radii) answers differently the second time: "
                            f"{np.asarray(res).tolist()} vs {np.asarray(res2).tolist()}"[:400]))
     if as_mask:
@@ -360,20 +530,21 @@ def _run_impl_inner(case):
     out = []
     cl = None
     spec = None
+    rnd = _sp(case)
     for op in case["ops"]:
         w = op.split()
         try:
             if w[0] == "new":
                 spec, _ = _parse_ops([op])
                 cl = None
-                cl, _c, _b = _build(np, spec, True)
+                cl, _c, _b = _build(np, spec, True, rnd)
                 out.append("ok")
             elif cl is None:
                 out.append("no-state")
             else:
                 _s, qs = _parse_ops([op])
                 q = qs[0]
-                rows = _query(np, cl, q, len(spec["coords"]), spec["box"] is not None, True, spec["S"])
+                rows = _query(np, cl, q, len(spec["coords"]), spec["box"] is not None, True, spec["S"], rnd=rnd)
                 out.append(_show(rows, q.get("shape") == "s"))
         except Exception as e:  # noqa: BLE001
             out.append("ERR:" + type(e).__name__)
@@ -581,14 +752,11 @@ def _overflow_possible(spec_n, periodic, cs, q):
 def _oracle_body(case):
     import numpy as np
     if case.get("kind") == "malformed":
-        # the property only asks that malformed input is rejected (ValueError/IndexError/TypeError), never answered
-        v = []
-        for op, exp, got in zip(case["ops"], case.get("expect", []), run_impl(case)):
-            if exp == "rej" and not got.startswith(("ERR:ValueError", "ERR:IndexError", "ERR:TypeError")):
-                v.append((f"C14/{op.split()[0]}/malformed-accepted", f"malformed op {op!r} answered {got!r}"))
-            if exp == "ok" and not got.startswith("ok"):
-                v.append((f"C14/{op.split()[0]}/valid-rejected", f"valid op {op!r} answered {got!r}"))
-        return v
+        return _oracle_malformed(np, case)
+    if case.get("kind") == "ctor-reject":
+        return _oracle_ctor_reject(np, case)
+    if case.get("kind") == "read-only":
+        return _oracle_readonly(np, case)
     exact = "ops" in case and case.get("spec") is None
     if exact:
         spec, qs = _parse_ops(case["ops"])
@@ -600,13 +768,12 @@ def _oracle_body(case):
     n = len(spec["coords"])
     valid = case.get("valid", True)
     try:
-        cl, coords32, box = _build(np, spec, exact)
-        ctor_snap = [("coordinates", coords32, coords32.tobytes())]
-        if box is not None:
-            ctor_snap.append(("box", box, box.tobytes()))
-        if _LAST.get("sel") is not None:
-            ctor_snap.append(("selection mask", _LAST["sel"], _LAST["sel"].tobytes()))
+        rnd = _sp(case)
+        cl, coords32, box = _build(np, spec, exact, rnd)
+        ctor_snap = _LAST.get("ctor_snap", [])
     except Exception as e:  # noqa: BLE001
+        for name in _snap_changed(_LAST.get("ctor_snap", [])):
+            v.append(("C14/new/caller-array-modified", f"the refused constructor call modified the caller's {name}"))
         if valid:
             v.append((f"C14/new/unexpected-{type(e).__name__}", f"constructor raised {type(e).__name__}: {e} on valid input {spec}"))
         return v
@@ -615,6 +782,7 @@ def _oracle_body(case):
         return v
     sc = 2.0 ** (-spec["S"]) if exact else 1.0
     cs_f = spec["cs"] * sc
+    first_ok = None
     for q in qs:
         if q.get("malformed"):
             try:
@@ -627,8 +795,12 @@ def _oracle_body(case):
         tag = f"{q['op']}/{q.get('mode', 'mask')}/{'periodic' if box is not None else 'plain'}"
         issues = []
         try:
-            rows = _query(np, cl, q, n, box is not None, exact, spec.get("S", 0), issues=issues)
+            rows = _query(np, cl, q, n, box is not None, exact, spec.get("S", 0), issues=issues, rnd=rnd)
+            if first_ok is None:
+                first_ok = (q, rows)
         except Exception as e:  # noqa: BLE001
+            for kind_, msg_ in issues:
+                v.append((f"C14/{q['op']}/{kind_}", msg_ + " (the call raised)"))
             qf = dict(q)
             if exact:
                 if "rad" in qf and q["op"] == "atoms":
@@ -725,9 +897,217 @@ def _oracle_body(case):
                     if i not in rows[j]:
                         v.append(("C14/adj/not-symmetric", f"adjacency[{i}][{j}] is True but [{j}][{i}] is False (thr {q['thr']})"))
                         break
-    for name, a, b in ctor_snap:
-        if a.tobytes() != b:
-            v.append(("C14/new/caller-array-modified", f"the caller's {name} array was modified by the cell list"))
+    # ---- state across calls on one object / a second object alive at the same time / permuted input order
+    if first_ok is not None and not isinstance(first_ok[1], str) and n >= 1:
+        q0, rows0 = first_ok
+        try:
+            spec2 = dict(spec, coords=list(reversed(spec["coords"])), cs=spec["cs"] * 2,
+                         sel=None if spec["sel"] is None else list(reversed(spec["sel"])))
+            if exact or (spec["cs"] * 2 > 0):
+                cl2, coords2, box2 = _build(np, spec2, exact)
+                rows2 = _query(np, cl2, q0, n, box2 is not None, exact, spec.get("S", 0))
+                if not isinstance(rows2, str) and q0["op"] != "cells":
+                    back = ([sorted(n - 1 - j for j in r) for r in reversed(rows2)] if q0["op"] == "adj"
+                            else [sorted(n - 1 - j for j in r) for r in rows2])
+                    if exact and back != rows0:
+                        v.append((f"C14/{q0['op']}/depends-on-atom-order-or-cell-size",
+                                  f"{q0}: {rows0} but with the atoms in reverse order and twice the cell size {back} (mapped back)"))
+                    elif not exact:
+                        req2, allowed2, _d, _r = _float_bounds(np, coords2, box2, spec2["sel"], dict(q0, cs=cs_f * 2))
+                        for i, r in enumerate(rows2):
+                            if i < len(req2) and (not set(req2[i]) <= set(r) or not set(r) <= set(allowed2[i])):
+                                v.append((f"C14/{q0['op']}/depends-on-atom-order-or-cell-size",
+                                          f"{q0} on the reversed atoms with twice the cell size: row {i} = {r}, "
+                                          f"required {req2[i]}, allowed {allowed2[i]}"))
+                                break
+            again = _query(np, cl, q0, n, box is not None, exact, spec.get("S", 0))
+            if again != rows0:
+                v.append((f"C14/{q0['op']}/state-across-calls",
+                          f"{q0} answered {rows0} first and {again} after {len(qs)} other calls on the same cell list "
+                          f"(and a second cell list built in between)"))
+        except Exception as e:  # noqa: BLE001
+            v.append((f"C14/{q0['op']}/state-across-calls", f"re-issuing {q0} raised {type(e).__name__}: {e}"))
+    if box is not None:
+        v += _box_function_checks(np, coords32, box, exact)
+    for name in _snap_changed(ctor_snap):
+        v.append(("C14/new/caller-array-modified", f"the caller's {name} array was modified by the cell list"))
+    return v
+
+
+def _oracle_malformed(np, case):
+    """Malformed input must be rejected (ValueError/IndexError/TypeError), never answered; a refused call changes
+    nothing: arguments bit-identical, and every valid query answers the same before and after it."""
+    v = []
+    spec = None
+    cl = None
+    seen = {}
+    for op, exp in zip(case["ops"], case.get("expect", [])):
+        w = op.split()[0]
+        got = None
+        issues = []
+        try:
+            if w == "new":
+                spec, _ = _parse_ops([op])
+                cl = None
+                cl, _c, _b = _build(np, spec, True)
+                got = "ok"
+            elif cl is None:
+                got = "no-state"
+            else:
+                _s, qs = _parse_ops([op])
+                rows = _query(np, cl, qs[0], len(spec["coords"]), spec["box"] is not None, True, spec["S"], issues=issues)
+                got = _show(rows, qs[0].get("shape") == "s")
+        except Exception as e:  # noqa: BLE001
+            got = "ERR:" + type(e).__name__
+            if w == "new":
+                for name in _snap_changed(_LAST.get("ctor_snap", [])):
+                    v.append(("C14/new/caller-array-modified", f"the refused constructor call {op!r} modified the caller's {name}"))
+        for kind_, msg_ in issues:
+            v.append((f"C14/{w}/{kind_}", msg_ + f" (op {op!r}, answered {got})"))
+        if exp == "rej" and not got.startswith(("ERR:ValueError", "ERR:IndexError", "ERR:TypeError")):
+            v.append((f"C14/{w}/malformed-accepted", f"malformed op {op!r} answered {got!r}"))
+        if exp == "ok" and not got.startswith("ok"):
+            v.append((f"C14/{w}/valid-rejected", f"valid op {op!r} answered {got!r}"))
+        if exp == "ok" and w != "new":
+            if op in seen and seen[op] != got:
+                v.append((f"C14/{w}/refused-call-changed-state", f"{op!r} answered {seen[op]!r} before and {got!r} after a refused call"))
+            seen[op] = got
+    return v
+
+
+def _oracle_ctor_reject(np, case):
+    """Constructor inputs the documentation rejects; Python-level descriptions (not expressible in the protocol)."""
+    import biotite.structure as struc
+    what = case["what"]
+    c = np.array(case["coords"], dtype=np.float32)
+    b = np.diag([8.0, 8.0, 8.0]).astype(np.float32)
+    try:
+        if what == "stack":
+            st = struc.AtomArrayStack(2, len(c))
+            st.coord = np.stack([c, c])
+            struc.CellList(st, 2.0)
+        elif what == "nan-box":
+            bb = b.copy()
+            bb[1, 1] = np.nan
+            struc.CellList(c, 2.0, periodic=True, box=bb)
+        elif what == "own-box-shape":
+            at = struc.AtomArray(len(c))
+            at.coord = c
+            at.box = b
+            at._box = np.stack([b, b])          # a stack-shaped box on an AtomArray
+            struc.CellList(at, 2.0, periodic=True)
+        elif what == "nan-coord":
+            cc = c.copy()
+            cc[0, 1] = np.nan
+            struc.CellList(cc, 2.0)
+        elif what == "inf-coord-selected":
+            cc = c.copy()
+            cc[0, 1] = np.inf
+            struc.CellList(cc, 2.0, selection=np.ones(len(c), dtype=bool))
+        elif what == "bad-shape":
+            struc.CellList(c[:, :2], 2.0)
+        else:
+            return []
+    except (ValueError, TypeError, IndexError):
+        return []
+    return [(f"C14/new/malformed-accepted/{what}", f"constructor accepted {what} input")]
+
+
+def _oracle_readonly(np, case):
+    """Read-only / non-contiguous spellings of valid arguments must be answered like the writable contiguous ones."""
+    from biotite.structure import CellList
+    c = np.array(case["coords"], dtype=np.float32)
+    qp = np.array(case["q"], dtype=np.float32)
+    sel = np.array(case["sel"], dtype=bool)
+    r = float(case["r"])
+
+    def ro(a):
+        a = a.copy()
+        a.flags.writeable = False
+        return a
+    ref = CellList(c, 2.0).get_atoms(qp, r, as_mask=True)
+    refc = CellList(c, 2.0).get_atoms_in_cells(qp, np.array([1] * len(qp), dtype=np.int32), as_mask=True)
+    refs = CellList(c, 2.0, selection=sel).get_atoms(qp, r, as_mask=True)
+    big = np.zeros(2 * len(sel), dtype=bool)
+    big[::2] = sel
+    trials = [
+        ("constructor-coordinates", K_READONLY, lambda: CellList(ro(c), 2.0).get_atoms(qp, r, as_mask=True), ref),
+        ("query-coordinates", K_READONLY, lambda: CellList(c, 2.0).get_atoms(ro(qp), r, as_mask=True), ref),
+        ("cell-radius-array", K_READONLY, lambda: CellList(c, 2.0).get_atoms_in_cells(qp, ro(np.array([1] * len(qp), dtype=np.int32)), as_mask=True), refc),
+        ("selection-mask", K_READONLY, lambda: CellList(c, 2.0, selection=ro(sel)).get_atoms(qp, r, as_mask=True), refs),
+        ("strided", K_SEL_STRIDED, lambda: CellList(c, 2.0, selection=big[::2]).get_atoms(qp, r, as_mask=True), refs),
+    ]
+    v = []
+    for name, key, fn, want in trials:
+        try:
+            got = fn()
+            if not np.array_equal(got, want):
+                v.append((f"C14/spelling/{name}/wrong-answer", f"{name}: {got.tolist()} instead of {want.tolist()}"))
+        except Exception as e:  # noqa: BLE001
+            v.append((key if key == K_SEL_STRIDED else key + "/" + name, f"{name}: {type(e).__name__}: {e}"))
+    return v
+
+
+def _box_function_checks(np, coords32, box, exact):
+    """The box.py helpers the periodic cell list is built from, at every entry level (one coordinate, an array, a stack):
+    move_inside_box changes a coordinate by a lattice vector and lands in the cell; repeat_box_coord / repeat_box
+    return the original coordinates first, then every translation exactly once, with indices = tile(arange(n))."""
+    import biotite.structure as struc
+    from biotite.structure.box import move_inside_box, repeat_box, repeat_box_coord
+    v = []
+    n = len(coords32)
+    B = box.astype(np.float64)
+    inv = np.linalg.inv(B)
+    scale = float(np.abs(B).max()) + float(np.abs(coords32).max() if n else 0.0)
+    tol = 0.0 if exact else 2e-5 * scale
+    for level, arr in (("array", coords32), ("single", coords32[0]), ("stack", np.stack([coords32, coords32[::-1]]))):
+        try:
+            w = np.asarray(move_inside_box(arr, box), dtype=np.float64)
+        except Exception as e:  # noqa: BLE001
+            v.append((f"C14/box/move_inside_box/{level}/unexpected-{type(e).__name__}", str(e)[:200]))
+            continue
+        if w.shape != arr.shape:
+            v.append((f"C14/box/move_inside_box/{level}/shape", f"{w.shape} for input {arr.shape}"))
+            continue
+        k = (w - arr.astype(np.float64)) @ inv
+        f = w @ inv
+        ftol = tol * float(np.abs(inv).max()) * 3 + (1e-9 if exact else 1e-5)     # 1e-9: float64 inverse of this oracle itself
+        if np.abs(k - np.round(k)).max() > ftol or f.min() < -ftol or f.max() > 1 + ftol or (exact and f.max() >= 1 - 1e-9):
+            v.append((f"C14/box/move_inside_box/{level}/not-a-lattice-shift-into-the-cell",
+                      f"fractional coordinates of the result in [{f.min():.6g}, {f.max():.6g}], shift deviates from the lattice by "
+                      f"{np.abs(k - np.round(k)).max():.3g} (box {box.tolist()})"))
+    for amount in (1, 2):
+        try:
+            rc, idx = repeat_box_coord(coords32, box, amount) if amount != 1 else repeat_box_coord(coords32, box)
+        except Exception as e:  # noqa: BLE001
+            v.append((f"C14/box/repeat_box_coord/unexpected-{type(e).__name__}", str(e)[:200]))
+            continue
+        m = (2 * amount + 1) ** 3
+        ok = rc.shape == (m * n, 3) and np.array_equal(idx, np.tile(np.arange(n), m)) and np.array_equal(rc[:n], coords32)
+        if ok:
+            shifts = set()
+            for bi in range(m):
+                d = (rc[bi * n:(bi + 1) * n].astype(np.float64) - coords32.astype(np.float64))
+                kk = d @ inv
+                if np.abs(kk - kk[0]).max() > 1e-4 or np.abs(kk[0] - np.round(kk[0])).max() > 1e-4:
+                    ok = False
+                    break
+                shifts.add(tuple(int(x) for x in np.round(kk[0])))
+            ok = ok and len(shifts) == m and all(max(abs(x) for x in t) <= amount for t in shifts)
+        if not ok:
+            v.append((f"C14/box/repeat_box_coord/amount-{amount}/wrong-images",
+                      f"repeat_box_coord(n={n}, amount={amount}) does not return the original coordinates followed by every "
+                      f"translation once with indices tile(arange(n))"))
+    try:
+        at = struc.AtomArray(n)
+        at.coord = coords32
+        at.box = box
+        rep, idx2 = repeat_box(at)
+        rc1, idx1 = repeat_box_coord(coords32, box)
+        if rep.array_length() != 27 * n or not np.array_equal(rep.coord, rc1) or not np.array_equal(idx2, idx1):
+            v.append(("C14/box/repeat_box/differs-from-repeat_box_coord", f"repeat_box(AtomArray n={n}) != repeat_box_coord"))
+    except Exception as e:  # noqa: BLE001
+        v.append((f"C14/box/repeat_box/unexpected-{type(e).__name__}", str(e)[:200]))
     return v
 
 
@@ -993,6 +1373,22 @@ def _malformed_exact(rng):
                    for i, op in enumerate(c["ops"])]
     if len(c["ops"]) > 1:
         c["expect"][0] = "ok"
+        # a refused call changes nothing: the same valid queries before, between and after the refused ones
+        first = c["ops"][0].split()
+        q = ",".join(first[5].split(",")[:3])
+        valid = [f"atoms idx m {q},{q} m:{rng.randint(0, 9)},{rng.randint(10, 40)}", f"cells mask s {q} s:{rng.randint(0, 2)}",
+                 f"adj {rng.randint(0, 30)}"]
+        ops, exp = [c["ops"][0]], ["ok"]
+        for op, e in zip(c["ops"][1:], c["expect"][1:]):
+            w = rng.choice(valid)
+            ops += [w, op, w]
+            exp += ["ok", e, "ok"]
+        c["ops"], c["expect"] = ops, exp
+    else:
+        # a refused constructor followed by a good one (nothing global may be left behind)
+        coords = [[rng.randint(-9, 9) for _ in range(3)] for _ in range(3)]
+        c["ops"] += [f"new 0 4 - - {_ints(x for p in coords for x in p)}", f"atoms idx s {_ints(coords[0])} s:12"]
+        c["expect"] += ["ok", "ok"]
     return c
 
 
@@ -1044,8 +1440,9 @@ def _overflow_case(rng):
             break
     else:
         cr = 700
-    return {"kind": "overflow", "ops": [f"new 0 1 - - {_ints(x for c in coords for x in c)}",
-                                        f"atoms idx s {_ints(coords[0])} s:{cr}"]}
+    ok = f"atoms idx s {_ints(coords[0])} s:{rng.randint(0, 5)}"
+    return {"kind": "overflow", "ops": [f"new 0 1 - - {_ints(x for c in coords for x in c)}", ok,
+                                        f"atoms idx s {_ints(coords[0])} s:{cr}", ok]}
 
 
 # ---------------------------------------------------------------- generator: float stream
@@ -1295,8 +1692,16 @@ def _prefetch(which):
                     _CACHE[which][_sig(c)] = val
 
 
+def _spelled(rng, c):
+    """60 % of the cases hand every argument over in another spelling of the same value (NumPy scalars of several
+    widths, float64 / Fortran / strided / byte-swapped / read-only-float64 arrays, lists) and with another call style."""
+    if rng.random() < 0.6:
+        c["sp"] = rng.getrandbits(30)
+    return c
+
+
 def _cases(rng, tier):
-    n_exact, n_float = (800, 800) if tier == "quick" else (12000, 12000)
+    n_exact, n_float = (800, 700) if tier == "quick" else (12000, 12000)
     for i in range(n_exact):
         t = rng.random()
         if t < 0.07:
@@ -1304,13 +1709,15 @@ def _cases(rng, tier):
         elif t < 0.09:
             yield _overflow_case(rng)
         elif t < 0.32:
-            yield _exact_case(rng, periodic=True)
+            yield _spelled(rng, _exact_case(rng, periodic=True))
         else:
-            yield _exact_case(rng)
+            yield _spelled(rng, _exact_case(rng))
     for i in range(n_float):
-        yield _float_case(rng)
-    for i in range(240 if tier == "quick" else 3000):
-        yield _float_geom_case(rng)
+        yield _spelled(rng, _float_case(rng))
+    for i in range(200 if tier == "quick" else 3000):
+        yield _spelled(rng, _float_geom_case(rng))
+    for what in ("stack", "nan-box", "own-box-shape", "nan-coord", "inf-coord-selected", "bad-shape"):
+        yield {"kind": "ctor-reject", "what": what, "coords": [[rng.randint(-9, 9) for _ in range(3)] for _ in range(rng.randint(1, 4))]}
 
 
 def corpus():
@@ -1357,9 +1764,10 @@ def nontrivial(case, impl_out):
 
 def signature(case):
     if "ops" in case:
-        return "|".join(case["ops"])
+        return "|".join(case["ops"]) + ("#" + str(case["sp"]) if case.get("sp") is not None else "")
     from common import util
-    return util.jdump(case.get("spec"))
+    return util.jdump(case.get("spec") if case.get("spec") is not None else {k: v for k, v in case.items() if not k.startswith("_")}) + \
+        ("#" + str(case["sp"]) if case.get("sp") is not None else "")
 
 
 def distribution(cases, impl_outs):
